@@ -51,7 +51,7 @@ CATALOGUE = {
         "T.sig-other-key", "T.sig-other-certinfo", "T.cert-v1", "T.subject-nonempty", "T.san-missing",
         "T.san-no-manufacturer", "T.san-no-model", "T.san-no-version", "T.vendor-unknown", "T.eku-missing",
         "T.eku-other-first", "T.bc-missing", "T.bc-ca-true", "T.exponent-zero-key-e-ne-default",
-        "T.cose-exponent-above-uint32", "T.namealg-unmapped-sm3", "T.namealg-unmapped-null", "T.curve-unmapped-p224", "T.curve-unmapped-none", "T.curve-unmapped-bn638", "T.curve-unmapped-p192"],
+        "T.cose-exponent-above-uint32", "T.san-uri-only", "T.namealg-unmapped-sm3", "T.namealg-unmapped-null", "T.curve-unmapped-p224", "T.curve-unmapped-none", "T.curve-unmapped-bn638", "T.curve-unmapped-p192"],
     "apple": ["AP.x5c-missing", "AP.nonce-ext-missing", "AP.nonce-other-authdata", "AP.nonce-other-cdj",
               "AP.certkey-ne-credkey"],
     "android-key": [
@@ -61,7 +61,7 @@ CATALOGUE = {
         "K.purpose-verify", "K.purpose-absent"],
     "android-safetynet": [
         "S.ver-missing", "S.response-missing", "S.jws-two-parts", "S.jws-four-parts", "S.nonce-other-data",
-        "S.basicintegrity-false", "S.basicintegrity-missing", "S.ts-past", "S.ts-future", "S.cn-other",
+        "S.basicintegrity-false", "S.basicintegrity-missing", "S.ts-past", "S.ts-future", "S.cn-other", "S.cn-missing",
         "S.alg-es256", "S.sig-other-key", "S.payload-altered"],
     "chain": list(ca.CHAIN_FAULTS),
 }
@@ -107,6 +107,7 @@ class RegRequest:
     base_time: Optional[datetime.datetime] = None
     tpm_name_alg: int = tpm.TPM_ALG_SHA256
     tpm_vendor: str = "id:414D4400"
+    tpm_san_extra_dnsname_first: bool = False          # a conformant variation: an additional dNSName before the directoryName
     cd_kwargs: dict = field(default_factory=dict)
 
 
@@ -573,6 +574,10 @@ def _tpm_san(b: _Build) -> x509.SubjectAlternativeName:
              ("T.san-no-model", TCG_AT_TPM_MODEL, "SimTPM"),
              ("T.san-no-version", TCG_AT_TPM_VERSION, "id:00010000")]
     directory = x509.Name([x509.NameAttribute(oid, value) for fault, oid, value in attrs if not b.has(fault)])
+    if b.req.tpm_san_extra_dnsname_first:               # the TPM attributes are there, but not in the first general name
+        return x509.SubjectAlternativeName([x509.DNSName("tpm.example.com"), x509.DirectoryName(directory)])
+    if b.has("T.san-uri-only"):                         # a SAN that carries no directoryName at all
+        return x509.SubjectAlternativeName([x509.UniformResourceIdentifier("urn:tpm:simulated")])
     return x509.SubjectAlternativeName([x509.DirectoryName(directory)])
 
 
@@ -728,6 +733,8 @@ def _safetynet(b: _Build) -> dict:
     if not _is_rsa(key):
         raise ValueError("SafetyNet responses are signed RS256: att_key must be RSA")
     host = "attest.example.com" if b.has("S.cn-other") else "attest.android.com"
+    if b.has("S.cn-missing"):
+        host = None                                     # a subject with C and O only: it is certainly not attest.android.com
     _chain(b, key, leaf_subject=ca.name(host, c="US", o="Sim Google"))
     stmt = {"ver": "14799021", "response": _safetynet_jws(b, key, _x5c(b))}
     return _without(stmt, b, {"S.ver-missing": "ver", "S.response-missing": "response"})
